@@ -90,6 +90,20 @@ type Exec struct {
 	atCallArgs   []Value
 	topFreeVars  []Value
 	linkSeen     map[string]bool
+	stops        []*stopPoint
+	ipdoms       map[*ssa.Function]map[*ssa.BasicBlock]*ssa.BasicBlock
+}
+
+type arrival struct {
+	st   *State
+	from *ssa.BasicBlock
+}
+
+type stopPoint struct {
+	block    *ssa.BasicBlock
+	depth    int
+	fn       *ssa.Function
+	arrivals []arrival
 }
 
 func newExec(w *World, fn *ssa.Function, sel string, con *Contract) *Exec {
@@ -384,7 +398,7 @@ func (ex *Exec) load(st *State, p *PtrV) Term {
 	case p.IsElem:
 		es := ex.w.sortOf(p.Root, ex.d)
 		h := ex.heap(st, "S$"+es, arraySort(SInt, arraySort(SInt, es)))
-		root := sel(sel(h, slcBase(p.Slc), arraySort(SInt, es)), add(slcOff(p.Slc), p.Idx), es)
+		root := sel(sel(h, slcBase(p.Slc), arraySort(SInt, es)), eix(slcOff(p.Slc), p.Idx), es)
 		v, _ := ex.loadPath(root, p.Root, p.Path)
 		return v
 	}
@@ -444,7 +458,7 @@ func (ex *Exec) store(st *State, p *PtrV, v Term, site ssa.Instruction) {
 		h := ex.heap(st, name, arraySort(SInt, arraySort(SInt, es)))
 		ex.frameWrite(st, site, "slice element", ge(slcBase(p.Slc), st.alloc0))
 		arr := sel(h, slcBase(p.Slc), arraySort(SInt, es))
-		idx := add(slcOff(p.Slc), p.Idx)
+		idx := eix(slcOff(p.Slc), p.Idx)
 		nv := v
 		if len(p.Path) > 0 {
 			nv = ex.storePath(sel(arr, idx, es), p.Root, p.Path, v)
@@ -557,6 +571,13 @@ func (ex *Exec) enterBlock(st *State, b *ssa.BasicBlock, from *ssa.BasicBlock) {
 		ex.unsupportedf("path budget exceeded in %s", ex.sel)
 	}
 	fr := st.top()
+	for n := len(ex.stops) - 1; n >= 0; n-- {
+		sp := ex.stops[n]
+		if sp.block == b && sp.depth == len(st.frames) && sp.fn == fr.fn {
+			sp.arrivals = append(sp.arrivals, arrival{st, from})
+			return
+		}
+	}
 	li := ex.loops(fr.fn)
 	phiVal := func(phi *ssa.Phi) Value {
 		for i, p := range b.Preds {
@@ -646,6 +667,11 @@ func (ex *Exec) execFrom(st *State, b *ssa.BasicBlock, idx int) {
 			continue
 		case *ssa.If:
 			c := ex.term(st, ex.val(st, in.Cond))
+			if c.S != "true" && c.S != "false" {
+				if ex.tryMerge(st, b, c) {
+					return
+				}
+			}
 			if c.S != "false" {
 				st2 := st.clone()
 				st2.assume(c)
@@ -748,7 +774,7 @@ func (ex *Exec) step(st *State, in ssa.Instruction) {
 			base := ex.newRef(st, "arr")
 			name, h := ex.slcHeap(st, es)
 			as := arraySort(SInt, es)
-			ex.setHeap(st, name, sto(h, base, mk(as, fmt.Sprintf("((as const %s) %s)", as, ex.zero(at.Elem()).S))))
+			ex.setHeap(st, name, sto(h, base, ex.constArr(as, ex.zero(at.Elem()))))
 			fr.env[in] = &PtrV{Base: base, Root: et}
 			return
 		}
@@ -827,6 +853,13 @@ func (ex *Exec) step(st *State, in ssa.Instruction) {
 			idx := ex.term(st, ex.val(st, in.Index))
 			ex.oblige(st, "bounds", "", in, and(le(intLit(0), idx), lt(idx, intLit(t.Len()))), "array index in range")
 			fr.env[in] = sel(x, idx, ex.w.sortOf(t.Elem(), ex.d))
+		case *types.Basic: // string
+			x := ex.term(st, ex.val(st, in.X))
+			idx := ex.term(st, ex.val(st, in.Index))
+			ex.oblige(st, "bounds", "", in, and(le(intLit(0), idx), lt(idx, app(SInt, "str_len", x))), "string index in range")
+			r := app(SInt, "str_at", x, idx)
+			st.assume(and(le(intLit(0), r), le(r, intLit(255))))
+			fr.env[in] = r
 		default:
 			ex.unsupportedf("Index on %s", in.X.Type())
 		}
